@@ -284,6 +284,7 @@ Qed.
 Lemma h_mset_sim t1 t2 d1 d2 parts : sim d1 d2 -> sim (snd (h_mset t1 d1 parts)) (snd (h_mset t2 d2 parts)).
 Proof.
   intros H. unfold h_mset. destruct ((nparts parts <? 3) || (nparts parts mod 2 =? 0)); [exact H|].
+  destruct (mset_valid (tl parts)); [|exact H].
   apply mset_loop_sim. exact H.
 Qed.
 
